@@ -102,14 +102,15 @@ Definition znz_res (r : res (mat Z)) : option (nat * list (nat * nat * Z)) :=
   match r with Ok m => Some (znz m) | Err _ => None end.
 
 (* -------------------------------------------------- operators.py ladder ops
-   destroy: data = sqrt(arange(offset+1, N+offset)); qdiags(data, 1)
-   create : same data; qdiags(data, -1)
+   destroy: data = sqrt(arange(offset+1, N+offset)); qdiags([data], [1])
+   create : same data; qdiags([data], [-1])
+   (a list of one diagonal, so that the empty diagonal of N = 1 is kept)
    num    : data = arange(offset, offset+N); qdiags(data, 0)
    (qdiags turns the scalar offset k into [k] and calls _data.diag) *)
 Definition destroy_rad (N off : Z) : res (mat Z) :=
-  zdiags (Flat (arange (off + 1) (N + off))) [1].
+  zdiags (Nested [arange (off + 1) (N + off)]) [1].
 Definition create_rad (N off : Z) : res (mat Z) :=
-  zdiags (Flat (arange (off + 1) (N + off))) [-1].
+  zdiags (Nested [arange (off + 1) (N + off)]) [-1].
 Definition num_diag (N off : Z) : res (mat Z) :=
   zdiags (Flat (arange off (off + N))) [0].
 
@@ -133,39 +134,44 @@ Definition tunneling_isunitary (N m : Z) : bool := (m * 2 =? N).
    J = 2j (doubled spin).  _jplus:
      m = arange(j, -j-1, -1)            doubled: M_k = J - 2k, k = 0..J
      data = sqrt(j(j+1) - m(m+1))[1:]   4*radicand = J(J+2) - M(M+2)
-     diag(data, 1)
+     diag([data], [1])
    _jz: data = [j-k for k in range(int(2j+1))]   doubled: J - 2k ; diag(data, 0) *)
 Definition jm2 (J : Z) : list Z := map (fun k => J - 2 * Z.of_nat k) (seq 0 (Z.to_nat (J + 1))).
 Definition jplus_rad4 (J : Z) : list Z := map (fun M => J * (J + 2) - M * (M + 2)) (jm2 J).
 Definition jplus_data (J : Z) : list Z := tl (map (fun r => r / 4) (jplus_rad4 J)).
 Definition jplus_rad (J : Z) : res (mat Z) :=
-  if J <? 0 then Err EBadSpin else zdiags (Flat (jplus_data J)) [1].
+  if J <? 0 then Err EBadSpin else zdiags (Nested [jplus_data J]) [1].
 (* jmat(j,'-') is _jplus(j).adjoint(): transposed positions, same radicands *)
 Definition jz2_diag (J : Z) : res (mat Z) :=
   if J <? 0 then Err EBadSpin else zdiags (Flat (jm2 J)) [0].
 
 (* --------------------------------------------------- operators.py qdiags flags
    Gaussian-integer diagonals (re, im), atol = 1e-12:
-     len(offsets) == 1 and offsets[0] != 0 -> isherm = isunitary = False
-     offsets == [0] -> isherm    = np.all(np.imag(diagonals) <= atol)
-                       isunitary = np.all(np.abs(diagonals) - 1 <= atol)
+     len(offsets) == 1 and offsets[0] != 0 ->
+                       isherm    = np.all(np.abs(diagonals) <= atol)
+                       isunitary = False
+     offsets == [0] -> isherm    = np.all(np.abs(np.imag(diagonals)) <= atol)
+                       isunitary = np.all(np.abs(np.abs(diagonals) - 1) <= atol)
      otherwise None, None
-   On Gaussian integers  imag <= 1e-12  iff im <= 0  and
-   |d| - 1 <= 1e-12  iff re^2 + im^2 <= 1. *)
+   On Gaussian integers  |imag| <= 1e-12  iff im = 0,  |d| <= 1e-12 iff d = 0
+   and  ||d| - 1| <= 1e-12  iff re^2 + im^2 = 1. *)
 Definition gflat (a : diag_arg (Z * Z)) : list (Z * Z) :=
   match a with Flat d => d | Nested ds => concat ds end.
 Definition qdiags_flags (a : diag_arg (Z * Z)) (offsets : list Z)
   : option bool * option bool :=
   match offsets with
-  | [o] => if negb (o =? 0) then (Some false, Some false)
-           else (Some (forallb (fun d => snd d <=? 0) (gflat a)),
-                 Some (forallb (fun d => fst d * fst d + snd d * snd d <=? 1) (gflat a)))
+  | [o] => if negb (o =? 0)
+           then (Some (forallb (fun d => (fst d =? 0) && (snd d =? 0)) (gflat a)), Some false)
+           else (Some (forallb (fun d => snd d =? 0) (gflat a)),
+                 Some (forallb (fun d => fst d * fst d + snd d * snd d =? 1) (gflat a)))
   | _ => (None, None)
   end.
 (* what the flags are supposed to say about a diagonal matrix *)
 Definition diag_is_herm (d : list (Z * Z)) : bool := forallb (fun x => snd x =? 0) d.
 Definition diag_is_unitary (d : list (Z * Z)) : bool :=
   forallb (fun x => fst x * fst x + snd x * snd x =? 1) d.
+Definition diag_is_zero (d : list (Z * Z)) : bool :=
+  forallb (fun x => (fst x =? 0) && (snd x =? 0)) d.
 
 (* -------------------------------------------- states.py basis / dims2idx
    location = sum_k (n_k - offset_k) * prod_{l>k} dims_l ; every n_k - offset_k
